@@ -51,7 +51,13 @@ pub proof fn lemma_limb_prod(a: int, b: int)
 pub proof fn lemma_expand_2x2(a: int, b: int, c: int, d: int, k: int)
     ensures (a * k + b) * (c * k + d) == (a * c) * (k * k) + (a * d) * k + (b * c) * k + b * d
 {
-    assert((a * k + b) * (c * k + d) == (a * c) * (k * k) + (a * d) * k + (b * c) * k + b * d) by (nonlinear_arith);
+    let s = a * k + b;
+    vstd::arithmetic::mul::lemma_mul_is_distributive_add(s, c * k, d);
+    vstd::arithmetic::mul::lemma_mul_is_distributive_add_other_way(c * k, a * k, b);
+    vstd::arithmetic::mul::lemma_mul_is_distributive_add_other_way(d, a * k, b);
+    assert((a * k) * (c * k) == (a * c) * (k * k)) by (nonlinear_arith);
+    assert(b * (c * k) == (b * c) * k) by (nonlinear_arith);
+    assert((a * k) * d == (a * d) * k) by (nonlinear_arith);
 }
 
 pub proof fn lemma_mul_lt(a: int, ub_a: int, b: int, ub_b: int)
@@ -121,10 +127,23 @@ pub proof fn lemma_div_step(r: int, d: int, y: int)
     assert(y * (t / y) == (t / y) * y) by (nonlinear_arith);
 }
 
-pub proof fn lemma_expand_4x1(q3: int, q2: int, q1: int, q0: int, k: int, y: int)
-    ensures ((q3 * k + q2) * (k * k) + (q1 * k + q0)) * y == (q3 * y) * (k * k * k) + (q2 * y) * (k * k) + (q1 * y) * k + q0 * y
+/// one step of long division: if x == q * y + r and the next partial dividend r * k + d == q1 * y + r1,
+/// then x * k + d == (q * k + q1) * y + r1
+pub proof fn lemma_ld_step(x: int, q: int, r: int, d: int, q1: int, r1: int, y: int, k: int)
+    requires x == q * y + r, r * k + d == q1 * y + r1
+    ensures x * k + d == (q * k + q1) * y + r1
 {
-    assert(((q3 * k + q2) * (k * k) + (q1 * k + q0)) * y == (q3 * y) * (k * k * k) + (q2 * y) * (k * k) + (q1 * y) * k + q0 * y) by (nonlinear_arith);
+    vstd::arithmetic::mul::lemma_mul_is_distributive_add_other_way(k, q * y, r);
+    vstd::arithmetic::mul::lemma_mul_is_distributive_add_other_way(y, q * k, q1);
+    assert((q * y) * k == (q * k) * y) by (nonlinear_arith);
+}
+
+/// ((h * k + m) * k + l) regrouped as h * k^2 + (m * k + l)
+pub proof fn lemma_regroup(h: int, m: int, l: int, k: int)
+    ensures (h * k + m) * k + l == h * (k * k) + (m * k + l)
+{
+    vstd::arithmetic::mul::lemma_mul_is_distributive_add_other_way(k, h * k, m);
+    vstd::arithmetic::mul::lemma_mul_is_associative(h, k, k);
 }
 
 /// (h, l) / y by four 128-by-64 bit steps: every partial dividend fits 128 bits, every quotient
@@ -161,14 +180,22 @@ pub proof fn lemma_long_div4(h: int, l: int, y: int)
     let t0 = r1 * b + d0; let q0 = t0 / y; let r0 = t0 % y;
     lemma_div_step(r1, d0, y);
     let x = u256(h, l);
-    let qq = u256(q3 * b + q2, q1 * b + q0);
+    let qh = q3 * b + q2;
+    let ql = q1 * b + q0;
     assert(B128() == b * b);
-    assert(x == ((d3 * b + d2) * b + d1) * b + d0);
-    lemma_expand_4x1(q3, q2, q1, q0, b, y);
-    assert(qq == (q3 * b + q2) * (b * b) + (q1 * b + q0));
-    assert(x == (q3 * y) * (b * b * b) + (q2 * y) * (b * b) + (q1 * y) * b + q0 * y + r0);
-    assert(x == qq * y + r0);
-    lemma_div_mod_unique(x, y, qq, r0);
+    // prefixes of the dividend and of the quotient
+    let x2 = d3 * b + d2;
+    let x1 = x2 * b + d1;
+    let x0 = x1 * b + d0;
+    lemma_ld_step(d3, q3, r3, d2, q2, r2, y, b);
+    lemma_ld_step(x2, qh, r2, d1, q1, r1, y, b);
+    lemma_ld_step(x1, qh * b + q1, r1, d0, q0, r0, y, b);
+    assert(x2 == h);
+    lemma_regroup(h, d1, d0, b);
+    lemma_regroup(qh, q1, q0, b);
+    assert(x0 == x);
+    assert(x == u256(qh, ql) * y + r0);
+    lemma_div_mod_unique(x, y, u256(qh, ql), r0);
 }
 
 pub proof fn lemma_div_by_one(x: int)
